@@ -4,12 +4,14 @@
 //verif:replace@C15a os.Rename = c15Rename
 //verif:replace@C15a os.Remove = c15Remove
 //verif:replace@C15a (*os.File).WriteString = c15WriteString
+//verif:replace@C15a (*os.File).Write = c15Write
 //verif:replace@C15a (*os.File).Close = c15Close
 //verif:replace@C15d os.OpenFile = c15OpenFile
 //verif:replace@C15d os.Stat = c15Stat
 //verif:replace@C15d os.Rename = c15Rename
 //verif:replace@C15d os.Remove = c15Remove
 //verif:replace@C15d (*os.File).WriteString = c15WriteString
+//verif:replace@C15d (*os.File).Write = c15Write
 //verif:replace@C15d (*os.File).Close = c15Close
 
 package mapr
@@ -150,6 +152,8 @@ func c15WriteString(fd *os.File, s string) (int, error) {
 	h.f.data = append(h.f.data, s...)
 	return len(s), nil
 }
+
+func c15Write(fd *os.File, b []byte) (int, error) { return c15WriteString(fd, string(b)) }
 
 func c15Close(fd *os.File) error {
 	if h := c15Open[fd]; h != nil {
